@@ -212,3 +212,131 @@ Example realizable_circ_nonvacuous :
   realizable_circ ex_circ [71;87;82;77;65;75] = true /\
   realizable_circ ex_circ2 [77;65;71;87; 77;65;71;87; 77;65;71;87; 77;65;71;87] = false.
 Proof. vm_compute. split; reflexivity. Qed.
+
+(* ---- the abstract algorithm model (Model/AbsGraph.v; DESIGN Appendix B, docs/absgraph.md) ----
+   A DAG of labelled nodes; its language = (concatenated labels, concatenated variant ids) over the paths from a
+   start node to an accepting node.  These theorems are about the DESIGN of the engine's graph operations; the
+   real graphs are tied to them by the stage checks of the stream 'graph' (harness/lib/cvgraph.py), which run
+   the same definitions, extracted, on the graphs callVariant dumps. *)
+From MoPep Require Import Model.AbsGraph Proofs.AbsGraphProofs.
+
+(* fuel = number of nodes is enough: for a topologically numbered graph every fuel >= N - n gives the same paths *)
+Theorem paths_fuel_indep : forall g fin, topo g = true ->
+  forall f f' n, (length g - n <= f)%nat -> (length g - n <= f')%nat -> (1 <= f)%nat -> (1 <= f')%nat ->
+  paths_fin g fin f n = paths_fin g fin f' n.
+Proof. exact paths_fuel_indep_lemma. Qed.
+Print Assumptions paths_fuel_indep.
+
+(* drop (generalises skip_routes_sound to labelled languages with accepting nodes): removing edges -- complexity
+   limits, truncated / hybrid nodes -- only shrinks the language.  Any graph, fuel, start, accepting set. *)
+Theorem drop_lang_subset : forall g alive fin fuel n w,
+  In w (lang_fin (drop g alive) fin fuel n) -> In w (lang_fin g fin fuel n).
+Proof. exact drop_lang_subset_lemma. Qed.
+Print Assumptions drop_lang_subset.
+
+(* merging two nodes with equal label and equal successors keeps the set of strings; with equal variant ids
+   (wv = true) it keeps the labelled language *)
+Theorem merge_strings : forall g a b wv, twins wv g a b = true -> forall f n s, n <> b ->
+  (In s (strings (lang_fin (merge_nodes g a b) (sink (merge_nodes g a b)) f n)) <->
+   In s (strings (lang_fin g (sink g) f n))).
+Proof. intros g a b wv T f n s H. exact (merge_strings_lemma g a b wv T f n s H). Qed.
+Print Assumptions merge_strings.
+
+Theorem merge_lang : forall g a b, twins true g a b = true -> forall f n w, n <> b ->
+  (In w (lang_fin (merge_nodes g a b) (sink (merge_nodes g a b)) f n) <-> In w (lang_fin g (sink g) f n)).
+Proof. intros g a b T f n w H. exact (merge_lang_lemma g a b true T f n w eq_refl H). Qed.
+Print Assumptions merge_lang.
+
+(* collapse: a whole collapsing pass (the design content of "--min-nodes-to-collapse / --naa-to-collapse never
+   change the result"): the strings spelled from the root are the same set; with the variant ids compared, so is
+   the labelled language.  The engine's PVGNodeCollapser is the first form: it merges nodes that differ in
+   their substitution ids, so labels (C03) may change, strings (C01 / C02) may not. *)
+Theorem collapse_strings : forall wv g f s,
+  In s (strings (lang_fin (collapse wv g) (sink (collapse wv g)) f 0)) <-> In s (strings (lang_fin g (sink g) f 0)).
+Proof. intros wv g. exact (collapse_strings_lemma wv (map fst g) g). Qed.
+Print Assumptions collapse_strings.
+
+Theorem collapse_lang : forall g f w,
+  In w (lang_fin (collapse true g) (sink (collapse true g)) f 0) <-> In w (lang_fin g (sink g) f 0).
+Proof. intros g. exact (collapse_lang_lemma (map fst g) g). Qed.
+Print Assumptions collapse_lang.
+
+(* join_k: joining 1..k+1 consecutive nodes from every start along a path = the digestion loop of C10 over the
+   node boundaries of the path; when the inner boundaries are exactly the cleavage sites of the path string
+   (what stage 'cleave' checks on the real graphs) it IS Digest.cleave of the path string, whose products are
+   characterised by cleave_spec (Props/C10.v) *)
+Theorem joins_eq_cleave_loop : forall wt water lim nf ls,
+  joins wt water lim nf true ls = cleave_loop wt water lim (concat ls) nf true (all_bounds ls).
+Proof. exact joins_eq_cleave_loop_lemma. Qed.
+Print Assumptions joins_eq_cleave_loop.
+
+Theorem join_k : forall wt water lim r exc nf ls, ls <> [] ->
+  inner_bounds ls = sites r exc (concat ls) ->
+  joins wt water lim nf true ls = cleave wt water lim r exc nf (concat ls).
+Proof. exact join_k_lemma. Qed.
+Print Assumptions join_k.
+
+(* stage (a), soundness: when the check passes, every word of the graph is the transcript carrying exactly the
+   records named on the path -- a pairwise compatible sub-list of the supplied records *)
+Theorem tvg_stage_sound : forall tx vs off ws, tvg_unsound tx vs off ws = [] ->
+  forall w, In w ws ->
+    let h := hap_of_ids vs (snd w) in
+    pairwise false h = true /\ fst w = skipn off (apply_hap tx h) /\
+    (exists m, length m = length vs /\ h = select m vs).
+Proof. exact tvg_sound_lemma. Qed.
+Print Assumptions tvg_stage_sound.
+
+(* stage (b): the codon-wise translation of a whole path string, cut at its first stop, is Spec.translate *)
+Theorem translate_all_cut : forall s i secs,
+  fst (translate s i secs) = cut_at_stop (translate_all_sec s i secs).
+Proof. exact translate_all_cut_lemma. Qed.
+Print Assumptions translate_all_cut.
+
+(* Non-vacuity: a bubble ATG-(G|A)-CT.  Its language is the reference and the SNV haplotype; the stage check
+   accepts it and rejects the same graph with the alternative node spelling C; collapsing a duplicated
+   alternative node keeps the language; joining the nodes M|AK|GWR with k = 1 gives the digest of MAKGWR. *)
+Definition ex_g : graph :=
+  [(0%nat, mkNode [] [] [1%nat]); (1%nat, mkNode [65;84;71] [] [2%nat; 3%nat]); (2%nat, mkNode [71] [] [4%nat]);
+   (3%nat, mkNode [65] [0] [4%nat]); (4%nat, mkNode [67;84] [] [])].
+Definition ex_vs : list variant := [mkVar 3 4 [65] true].
+Example absgraph_nonvacuous :
+  topo ex_g = true /\
+  lang ex_g 0 = [([65;84;71;71;67;84], []); ([65;84;71;65;67;84], [0])] /\
+  tvg_unsound [65;84;71;71;67;84] ex_vs 0 (lang ex_g 0) = [] /\
+  tvg_unsound [65;84;71;71;67;84] ex_vs 0 [([65;84;71;67;67;84], [0])] <> [] /\
+  joins protein_weights4 water4 (mkLimits 1 0 1 30) true true [[77]; [65;75]; [71;87;82]]
+    = [[77]; [77;65;75]; [65;75]; [65;75;71;87;82]; [71;87;82]].
+Proof. vm_compute. repeat split; try reflexivity. discriminate. Qed.
+
+(* the enumerated language of a topologically numbered graph is the fuel-free one (paths to a sink) *)
+Theorem lang_iff_Lang : forall g n w, topo g = true -> (n < length g)%nat -> (In w (lang g n) <-> Lang g n w).
+Proof. exact lang_Lang_lemma. Qed.
+Print Assumptions lang_iff_Lang.
+
+(* split_node (cleavage re-partitioning): cutting the label of a node at any offset k -- the fresh node takes the
+   rest of the label and the successors -- keeps the labelled language of every start node *)
+Theorem split_lang : forall g n k fresh nd,
+  find g n = Some nd -> find g fresh = None -> (forall m, ~ In fresh (succs g m)) ->
+  forall m w, m <> fresh -> (Lang (split_node g n k fresh) m w <-> Lang g m w).
+Proof. exact split_lang_lemma. Qed.
+Print Assumptions split_lang.
+
+(* push_right (codon alignment of a bubble): moving the letters of n behind offset k into all its successors
+   keeps the labelled language, provided n is no sink, has no self loop and is the only predecessor of its successors *)
+Theorem push_lang : forall g n k nd,
+  find g n = Some nd -> ~ In n (n_succ nd) -> n_succ nd <> [] ->
+  (forall m, In m (n_succ nd) -> only_pred g n m = true) ->
+  (forall m, In m (n_succ nd) -> find g m <> None) ->
+  forall m w, ~ In m (n_succ nd) -> (Lang (push_right g n k) m w <-> Lang g m w).
+Proof. exact push_lang_lemma. Qed.
+Print Assumptions push_lang.
+
+(* Non-vacuity of the hypotheses: splitting node 1 (ATG) of ex_g at offset 1 with fresh id 5, and pushing the last
+   two letters of node 1 into its successors 2 and 3, are admissible; both keep the enumerated language *)
+Example split_push_nonvacuous :
+  find ex_g 1 = Some (mkNode [65;84;71] [] [2%nat; 3%nat]) /\ find ex_g 5 = None /\
+  forallb (fun e => negb (existsb (Nat.eqb 5) (n_succ (snd e)))) ex_g = true /\
+  forallb (only_pred ex_g 1) [2%nat; 3%nat] = true /\
+  lang (split_node ex_g 1 1 5) 0 = lang ex_g 0 /\
+  lang (push_right ex_g 1 1) 0 = lang ex_g 0.
+Proof. vm_compute. repeat split; reflexivity. Qed.
